@@ -197,8 +197,57 @@ def plan(prop, tier):
         return conc_e2(prop, tier, 6000 if q else 300_000) + conc_e1(prop, tier, 4 if q else 60) + conc_miri(prop, tier, 8 if q else 16, 3 if q else 24)
     if prop in ("C02", "C03"):
         return conc_e2(prop, tier, 6000 if q else 300_000) + conc_e1(prop, tier, 5 if q else 60) + conc_miri(prop, tier, 8 if q else 16, 2 if q else 16)
+    if prop in SEQ_CASES:
+        qc, tc = SEQ_CASES[prop]
+        procs = seq_shards(prop, tier, qc if q else tc)
+        if prop == "C04" and not q:
+            d = os.path.join(PARTS, "c04dump")
+            shutil.rmtree(d, ignore_errors=True)
+            os.makedirs(d, exist_ok=True)
+            for p in procs:
+                p.env = dict(p.env)
+                p.env["VERIF_C04_DUMP_DIR"] = d
+        return procs
     raise SystemExit("no plan for property %s" % prop)
 
+
+# sequential monitors: (quick cases, thorough cases) in total, sharded over the cores
+SEQ_CASES = {
+    "C04": (8000, 400_000),
+    "C05": (16000, 800_000),
+    "C06": (8000, 400_000),
+    "C07": (8000, 400_000),
+    "C08": (32000, 2_000_000),
+    "C09": (4000, 200_000),
+    "C12": (32000, 2_000_000),
+    "C13": (8000, 400_000),
+    "C14": (4000, 200_000),
+    "C15": (3200, 100_000),
+    "C17": (1600, 60_000),
+    "C18": (3200, 100_000),
+    "C20": (1600, 60_000),
+}
+
+
+def post_stage(prop, tier, results):
+    """Extra deciding steps that run after the engine processes (returns extra pseudo-results)."""
+    if prop == "C04" and tier == "thorough":
+        d = os.path.join(PARTS, "c04dump")
+        if os.path.isdir(d) and os.listdir(d):
+            r = subprocess.run([sys.executable, os.path.join(ROOT, "tools", "text_crosscheck.py"), d], capture_output=True, text=True)
+            try:
+                j = json.loads(r.stdout.strip().splitlines()[-1])
+            except Exception:  # noqa
+                return [dict(kind="inconclusive", msg="python cross-check produced no result: %s" % (r.stderr[-300:]))]
+            out = [dict(kind="counters", engine="python-float-crosscheck", counters={"files": j["files"], "values_reparsed": j["values"]})]
+            for mm in j["mismatches"]:
+                out.append(dict(kind="violation", signature="python-float-crosscheck:value-differs", rule="python-float-crosscheck", explanation=mm, replay={"engine": "python", "dump_dir": d}))
+            shutil.rmtree(d, ignore_errors=True) if not j["mismatches"] else None
+            return out
+    return []
+
+
+LEVELS = {"C17": "fault_enumeration"}
 
 ASSUMPTIONS = {
     "_all": [
@@ -207,6 +256,7 @@ ASSUMPTIONS = {
     ],
     "e2": ["E2: the library's shared state is reached only through the verif_sync shim (atomics, Mutex, RwLock); the explored interleavings are sequentially consistent"],
     "e1": ["E1: real x86-64 hardware (TSO); client-boundary stamps come from one SeqCst ticket counter"],
+    "seq": ["sequential monitors: reference models are written from the property statements; 64-bit FNV collisions between unrelated inputs are outside the statements"],
     "miri": ["Miri: weak-memory emulation and data-race detection as implemented by the installed nightly; -Zmiri-permissive-provenance because parking_lot casts integers to pointers"],
 }
 
@@ -287,6 +337,16 @@ def check(prop, tier):
         if res["rc"] not in (0, 1, 3) or res["error"]:
             inconclusive.append("%s: abnormal end (%s)" % (p.name, res["error"] or "exit %s" % res["rc"]))
 
+    if not inconclusive or results:
+        for extra in post_stage(prop, tier, results):
+            if extra["kind"] == "inconclusive":
+                inconclusive.append(extra["msg"])
+            elif extra["kind"] == "counters":
+                e = engines.setdefault(extra["engine"], {"processes": 1, "evaluations": 0, "wall_s": 0.0})
+                e.update(extra["counters"])
+            elif extra["kind"] == "violation":
+                violations.append((extra["signature"], extra["rule"], extra["explanation"], extra["replay"]))
+
     known = load_known(prop)
     seen = {}
     for sig, rule, expl, replay in violations:
@@ -331,7 +391,7 @@ def check(prop, tier):
         "property_id": prop,
         "tier": tier,
         "seed": SEED,
-        "level": "exploration",
+        "level": LEVELS.get(prop, "exploration"),
         "coverage": coverage,
         "assumptions": assumptions,
         "wall_s": round(time.time() - t0, 2),
@@ -405,6 +465,7 @@ def setup():
     try:
         build("hook", "conc")
         build("plain", "conc")
+        build("plain", "seq")
         subprocess.run(["cargo", "+nightly", "miri", "run", "-p", "conc", "--offline", "--", "C01", "--engine", "native", "--cases", "0"], cwd=HARNESS, env=miri_env(0), capture_output=True, text=True)
     except Inconclusive as e:
         print("setup failed: %s" % e)
